@@ -35,7 +35,7 @@ def weight_vectors(rng, n_cases):
 _BASE = {}
 
 
-def make_particles(G, N, w, key, diag=None, acc=0.0):
+def make_particles(G, N, w, key, diag=None, acc=0.0, offset=0.0):
     """a ParticleCollection over N vectorised traces of a small multi-leaf model, with the given weights"""
     import jax.numpy as jnp
     from genjax.inference.smc import ParticleCollection, init
@@ -53,7 +53,7 @@ def make_particles(G, N, w, key, diag=None, acc=0.0):
     if ck not in _BASE:
         _BASE[ck] = G.seed(init)(key, model, (), G.const(N), {"y": jnp.float32(0.5)})
     p0 = _BASE[ck]
-    lw = jnp.asarray([math.log(float(x)) if x > 0 else -np.inf for x in w], dtype=jnp.float32)
+    lw = jnp.asarray([math.log(float(x)) + offset if x > 0 else -np.inf for x in w], dtype=jnp.float32)
     if diag is None:
         dg = lw - jnp.log(jnp.sum(jnp.exp(lw)))
     else:
@@ -90,15 +90,20 @@ def lml(p):
     return float(p.log_marginal_likelihood())
 
 
-def check_one(G, ctx, w, key_int, method, diag=None, acc=0.0, label=""):
+def check_one(G, ctx, w, key_int, method, diag=None, acc=0.0, label="", offset=0.0):
     import jax.numpy as jnp
     import jax.random as jr
     from genjax.inference.smc import resample
     N = len(w)
     key = jr.key(key_int)
-    p = make_particles(G, N, w, jr.key(key_int + 1), diag=diag, acc=acc)
+    p = make_particles(G, N, w, jr.key(key_int + 1), diag=diag, acc=acc, offset=offset)
+    if offset:
+        # unnormalised log weights of large common magnitude: float32 quantises them, so the weights the particles REALLY carry are
+        # read back from the collection (exact rationals of the stored floats)
+        l64 = np.asarray(p.log_weights, dtype=np.float64)
+        w = [Fr(float(np.exp(v - l64.max()))) if np.isfinite(v) else Fr(0) for v in l64]
     case = {"kind": "resample", "weights": [str(x) for x in w], "N": N, "method": method, "key": key_int,
-            "diag": None if diag is None else [float(d) for d in diag], "acc": acc, "label": label}
+            "diag": None if diag is None else [float(d) for d in diag], "acc": acc, "label": label, "log_weight_offset": offset}
     try:
         q = G.seed(lambda pp: resample(pp, method=method))(key, p)
     except Exception as ex:
@@ -119,7 +124,9 @@ def check_one(G, ctx, w, key_int, method, diag=None, acc=0.0, label=""):
         ctx.property_failure(None, f"log_marginal_likelihood changed by resampling: {a} -> {b}", case)
     want_diag = np.array([math.log(float(x / tot)) if x > 0 else -np.inf for x in w])
     got_diag = np.asarray(q.diagnostic_weights, dtype=np.float64)
-    if not np.allclose(np.exp(got_diag), np.exp(want_diag), atol=1e-5):
+    # float32 log weights of magnitude |offset| are quantised to spacing(|offset|): lw - logsumexp(lw) inherits that error
+    diag_atol = 1e-5 if not offset else float(np.exp(4 * np.spacing(np.float32(abs(offset)))) - 1.0)
+    if not np.allclose(np.exp(got_diag), np.exp(want_diag), atol=diag_atol):
         ctx.property_failure(None, "diagnostic weights are not the pre-resampling normalised weights", case)
     if any(w[i] == 0 for i in idx):
         ctx.property_failure(None, "a particle of weight zero was copied", case)
@@ -189,6 +196,26 @@ def expectation_check(G, ctx, w, method, M):
     ctx.count("expectation:" + method)
 
 
+def all_impossible(G, ctx):
+    """every particle has weight zero (log weight -inf): the evidence estimate is 0 before and after resampling - a dead run must
+    never be revived with a finite log_marginal_likelihood"""
+    import jax.random as jr
+    from genjax.inference.smc import resample
+    for N in (2, 4):
+        for method in ("systematic", "categorical"):
+            case = {"kind": "all-impossible", "N": N, "method": method}
+            try:
+                p = make_particles(G, N, [Fr(0)] * N, jr.key(5))
+                q = G.seed(lambda pp: resample(pp, method=method))(jr.key(6), p)
+                a, b = lml(p), lml(q)
+                if not (a == -np.inf) or np.isfinite(b):
+                    ctx.property_failure(None, f"all particles impossible: log_marginal_likelihood is {a} before and {b} after resample ({method}); a dead collection must keep evidence 0", {**case, "before": a, "after": b})
+            except Exception as ex:
+                ctx.property_failure(None, f"resample of an all-impossible collection raised {type(ex).__name__}: {str(ex)[:150]}", case)
+            ctx.case(nontrivial_key=("all-impossible", N, method))
+            ctx.count("all-impossible")
+
+
 def resample_after_extend(G, ctx):
     """particles that carry their OWN arguments (after extend): the resampled particle must be a copy of its ancestor in every
     field - choices, score, return value AND stored arguments - i.e. a coherent trace (Lean: C12_resample_trace_coherent; the
@@ -226,6 +253,14 @@ def resample_after_extend(G, ctx):
 def run(ctx, audit):
     G = impl.load()
     resample_after_extend(G, ctx)
+    all_impossible(G, ctx)
+    # log weights of large common magnitude (long observation sequences): relative tolerances on RAW log weights must not matter
+    kk = ctx.seed * 1000 + 500
+    for off in (-1.0e5, -2.0e6):
+        for w in ([Fr(1), Fr(2), Fr(4), Fr(1)], [Fr(1), Fr(8), Fr(1), Fr(2), Fr(4), Fr(16)], [Fr(3), Fr(1), Fr(1)]):
+            for method in ("systematic", "categorical"):
+                kk += 1
+                check_one(G, ctx, w, kk, method, label="large-magnitude", offset=off)
     rng = ctx.rng
     vecs = weight_vectors(rng, 90 if ctx.thorough else 48)
     k = ctx.seed * 1000
